@@ -284,6 +284,7 @@ type warnCover struct {
 	singles map[uint]bool
 	ranges  [][2]uint
 	tokens  int
+	unnamed int // warnings which name no record at all
 }
 
 func parseWarnings(warn []error) *warnCover {
@@ -295,10 +296,15 @@ func parseWarnings(warn []error) *warnCover {
 			b, _ := strconv.ParseUint(m[2][2:], 16, 32)
 			wc.ranges = append(wc.ranges, [2]uint{uint(a), uint(b)})
 		}
+		named := false
 		for _, t := range hexRE.FindAllString(s, -1) {
 			v, _ := strconv.ParseUint(t[2:], 16, 32)
 			wc.singles[uint(v)] = true
 			wc.tokens++
+			named = true
+		}
+		if !named {
+			wc.unnamed++
 		}
 	}
 	return wc
@@ -575,8 +581,11 @@ func c16Adopt(c *run.Ctx, st *c16State, stopAgain, useFS bool, stats *c16Stats) 
 		stats.abandonedRuns++
 	}
 	if len(unreported) != 0 {
-		if wc.tokens == 0 && len(warn) != 0 {
-			// the texts name no record; the count is all that can be held against them
+		if wc.unnamed != 0 {
+			// A warning is an error value without structure: the record numbers
+			// in its text are the only way to tell what it speaks about. One
+			// which names no record may speak about any, so nothing can be held
+			// against the report when such a warning is present.
 			c.Count("warnings_without_record_names", 1)
 		} else {
 			var kinds []string
